@@ -30,9 +30,9 @@ META = {
 GEN_FILES = ("crl_universe.ndjson", "crl_lookup.ndjson", "crl_meta.ndjson")
 
 
-def gen(ctx, label, maxlen, usize, maxext, metaonly=False, lemmalen=2):
+def gen(ctx, label, maxlen, usize, maxext, metaonly=False, lemmalen=2, maxlenb=0, usizeb=0):
     r = ctx.tlc("CRLGen", "CRL_gen.cfg", workers=1, timeout=3000, label="CRLGen " + label,
-                subst={"MAXLEN": maxlen, "USIZE": usize, "TIMES": "{100, 200}", "MAXEXT": maxext,
+                subst={"MAXLEN": maxlen, "USIZE": usize, "MAXLENB": maxlenb, "USIZEB": usizeb, "TIMES": "{100, 200}", "MAXEXT": maxext,
                        "LEMMALEN": lemmalen, "METAONLY": "TRUE" if metaonly else "FALSE"})
     m = re.search(r'<<"CASES", (\d+), (\d+)>>', r.out)
     if not m:
@@ -51,15 +51,16 @@ def gen(ctx, label, maxlen, usize, maxext, metaonly=False, lemmalen=2):
 def run(ctx):
     binary = ctx.gobuild("c14")
     if ctx.quick:
-        plans = [("a", 3, 6, 3, False), ("b", 2, 12, 0, False)]
+        # one TLC run: lists <= 3 over 6 serials and lists <= 2 over the whole universe
+        plans = [("a", 3, 6, 3, False, 2, 12)]
         rec = (30, 400, 40)
     else:
-        plans = [("a", 3, 12, 4, False), ("b", 4, 7, 0, False)]
+        plans = [("a", 3, 12, 4, False, 0, 0), ("b", 4, 7, 0, False, 0, 0)]
         rec = (150, 1000, 60)
     cands = []
     nl = nm = nontriv = 0
-    for label, maxlen, usize, maxext, mo in plans:
-        l, m, files = gen(ctx, label, maxlen, usize, maxext, mo, lemmalen=min(maxlen, 3))
+    for label, maxlen, usize, maxext, mo, maxlenb, usizeb in plans:
+        l, m, files = gen(ctx, label, maxlen, usize, maxext, mo, lemmalen=min(maxlen, 3), maxlenb=maxlenb, usizeb=usizeb)
         if l == 0 or m == 0:
             raise Machinery("generator produced no cases")
         p = ctx.run(binary, ["replay-gen"] + files, timeout=3000)
